@@ -814,6 +814,11 @@ class Design:
                 sens.setdefault(sid, []).append(i)
         self.sens = {k: tuple(v) for k, v in sens.items()}
         self.proc_vars = b.proc_vars
+        self.poison = poison
+        pv = {v for vs in b.proc_vars.values() for v in vs}
+        # in poison mode stale values of poisonable variables cannot influence behaviour unless a poisoned read
+        # is reported, so they are left out of snapshots (sound as long as Sim.PR stays empty)
+        self.keep_vids = tuple(i for i in range(len(self.V_init)) if not (poison and i in pv))
 
     def errors(self):
         return [f for f in self.findings]
@@ -924,12 +929,28 @@ class Sim:
         self.settle()
 
     def snapshot(self):
+        if self.d.poison:
+            V = self.V
+            return (tuple(self.S), tuple([V[i] for i in self.d.keep_vids]))
         return (tuple(self.S), tuple(self.V))
 
     def restore(self, snap):
         self.S[:] = snap[0]
-        self.V[:] = snap[1]
+        if self.d.poison:
+            V = self.V
+            for i, v in zip(self.d.keep_vids, snap[1]):
+                V[i] = v
+        else:
+            self.V[:] = snap[1]
         self.N.clear()
+
+    def poisoned_reads(self):
+        """names of variables read before being written in some activation since the last call"""
+        if not self.PR:
+            return []
+        out = sorted({self.d.V_names[i] for i in self.PR})
+        del self.PR[:]
+        return out
 
     def signal_by_name(self, suffix):
         for i, n in enumerate(self.d.S_names):
